@@ -19,7 +19,7 @@ Section EKg.
   Notation F := (v6 O w).
   Notation Feq := (Feq O w).
 
-  Variable Gs : elem -> json.
+  Variables G1 G2 : elem -> json.
   Variable Q : str * prop elem -> Prop.
   Variable c : ecls.
   Variables k1 k2 : kwds elem.
@@ -32,11 +32,11 @@ Section EKg.
   Hypothesis W2 : kwf k2.
   Hypothesis D1 : local_g Q c k1.
   Hypothesis D2 : local_g Q c k2.
-  Hypothesis N1 : Forall (gsh Gs) (ksub k1).
-  Hypothesis N2 : Forall (gsh Gs) (ksub k2).
-  Hypothesis IH : forall x y, In x (ksub k1) -> In y (ksub k2) -> elem_eq x y = true -> Feq (Gs x) (Gs y).
-  Let kvs1 := ser_kwds true true Gs k1 ++ tail1.
-  Let kvs2 := ser_kwds true true Gs k2 ++ tail2.
+  Hypothesis N1 : Forall (gsh G1) (ksub k1).
+  Hypothesis N2 : Forall (gsh G2) (ksub k2).
+  Hypothesis IH : forall x y, In x (ksub k1) -> In y (ksub k2) -> elem_eq x y = true -> Feq (G1 x) (G2 y).
+  Let kvs1 := ser_kwds true true G1 k1 ++ tail1.
+  Let kvs2 := ser_kwds true true G2 k2 ++ tail2.
   (* the required clause (with its waiver) is supplied by the caller: Element / typed elements never waive, classes do *)
   Hypothesis L_req : forall m : list (str * json),
     (match lookup (s_ "required") kvs1 with
@@ -64,7 +64,7 @@ Section EKg.
   Lemma ks_deps k x : In x (sub_deps (k_dependencies k)) -> In x (ksub k).
   Proof. intros H. unfold ksub. rewrite !in_app_iff. tauto. Qed.
 
-  Lemma sub_nonarr k x : Forall (gsh Gs) (ksub k) -> In x (ksub k) -> nonarr (Gs x).
+  Lemma sub_nonarr (Gs : elem -> json) k x : Forall (gsh Gs) (ksub k) -> In x (ksub k) -> nonarr (Gs x).
   Proof.
     intros Hn Hx. rewrite Forall_forall in Hn. specialize (Hn x Hx). unfold nonarr.
     destruct Hn as [(l & E)|(_ & E)]; rewrite E; exact I.
@@ -87,7 +87,7 @@ Section EKg.
   Qed.
 
   Lemma elems_Feq l1 : forall l2, (forall x, In x l1 -> In x (ksub k1)) -> (forall y, In y l2 -> In y (ksub k2)) ->
-    elems_eq elem_eq l1 l2 = true -> Forall2 Feq (s_elems Gs l1) (s_elems Gs l2).
+    elems_eq elem_eq l1 l2 = true -> Forall2 Feq (s_elems G1 l1) (s_elems G2 l2).
   Proof.
     induction l1 as [|x r IHl]; intros [|y s] A1 A2 He; simpl in He; try discriminate; [constructor|].
     apply andb_true_iff in He as [He1 He2]. simpl. constructor.
@@ -97,20 +97,20 @@ Section EKg.
 
   Lemma L_items : irel O w (lookup (s_ "items") kvs1) (lookup (s_ "items") kvs2).
   Proof.
-    unfold kvs1, kvs2. rewrite (lk_items Gs k1 _ Ht1), (lk_items Gs k2 _ Ht2).
+    unfold kvs1, kvs2. rewrite (lk_items G1 k1 _ Ht1), (lk_items G2 k2 _ Ht2).
     destruct HEf as (H & _). unfold irel.
     destruct (k_items k1) as [[x|l1]|] eqn:E1, (k_items k2) as [[y|l2]|] eqn:E2; simpl in H; try discriminate; cbn [items_json]; auto.
     - assert (Hx : In x (ksub k1)) by (apply ks_items; rewrite E1; now left).
       assert (Hy : In y (ksub k2)) by (apply ks_items; rewrite E2; now left).
-      pose proof (sub_nonarr k1 x N1 Hx) as A1. pose proof (sub_nonarr k2 y N2 Hy) as A2.
+      pose proof (sub_nonarr G1 k1 x N1 Hx) as A1. pose proof (sub_nonarr G2 k2 y N2 Hy) as A2.
       pose proof (IH x y Hx Hy H) as Hf.
-      destruct (Gs x), (Gs y); try contradiction; auto.
+      destruct (G1 x), (G2 y); try contradiction; auto.
     - apply elems_Feq; [intros x Hx; apply ks_items; now rewrite E1|intros y Hy; apply ks_items; now rewrite E2|exact H].
   Qed.
 
   Lemma L_addl (a1 a2 : addl elem) : addl_eq elem_eq a1 a2 = true ->
     (forall x, In x (sub_addl a1) -> In x (ksub k1)) -> (forall y, In y (sub_addl a2) -> In y (ksub k2)) ->
-    orel O w (addl_json Gs a1) (addl_json Gs a2).
+    orel O w (addl_json G1 a1) (addl_json G2 a2).
   Proof.
     intros H A1 A2. unfold orel. destruct a1 as [[|]|x], a2 as [[|]|y]; simpl in H; try discriminate; cbn [addl_json]; auto.
     - intros v _. reflexivity.
@@ -119,7 +119,7 @@ Section EKg.
 
   Lemma L_opt (o1 o2 : option elem) : oelem_eq elem_eq o1 o2 = true ->
     (forall x, In x (sub_opt o1) -> In x (ksub k1)) -> (forall y, In y (sub_opt o2) -> In y (ksub k2)) ->
-    orel O w (option_map Gs o1) (option_map Gs o2).
+    orel O w (option_map G1 o1) (option_map G2 o2).
   Proof.
     intros H A1 A2. unfold orel. destruct o1 as [x|], o2 as [y|]; simpl in H; try discriminate; cbn [option_map]; auto.
     apply IH; [apply A1|apply A2|exact H]; now left.
@@ -156,7 +156,7 @@ Section EKg.
   Qed.
 
   (* ---- members ---- *)
-  Lemma decl_as k tl (Htl : forall key, In key (keys tl) -> key = s_ "type" \/ key = s_ "title") key :
+  Lemma decl_as (Gs : elem -> json) k tl (Htl : forall key, In key (keys tl) -> key = s_ "type" \/ key = s_ "title") key :
     decl_S (ser_kwds true true Gs k ++ tl) key =
     lookup key (s_props true Gs (match k_properties k with Some l => l | None => [] end)).
   Proof.
@@ -173,7 +173,7 @@ Section EKg.
     - split; constructor.
   Qed.
 
-  Lemma lookup_sprops l key : Forall (fun np : str * prop elem => p_source (snd np) <> []) l ->
+  Lemma lookup_sprops (Gs : elem -> json) l key : Forall (fun np : str * prop elem => p_source (snd np) <> []) l ->
     NoDup (map (fun np : str * prop elem => p_source (snd np)) l) ->
     forall S0, lookup key (s_props true Gs l) = Some S0 <->
                exists n p, In (n, p) l /\ p_source p = key /\ S0 = Gs (p_elem p).
@@ -192,24 +192,24 @@ Section EKg.
     | _, _ => False
     end.
   Proof.
-    unfold kvs1, kvs2. rewrite (decl_as k1 _ Ht1 key), (decl_as k2 _ Ht2 key). fold ps1. fold ps2.
+    unfold kvs1, kvs2. rewrite (decl_as G1 k1 _ Ht1 key), (decl_as G2 k2 _ Ht2 key). fold ps1. fold ps2.
     destruct props_dict as (Hl & Hd & Hn1 & Hn2).
     destruct (props_side k1 D1) as [Hs1 He1]. destruct (props_side k2 D2) as [Hs2 He2]. cbn zeta in *. fold ps1 in Hs1, He1. fold ps2 in Hs2, He2.
-    destruct (lookup key (s_props true Gs ps1)) as [S1|] eqn:E1.
-    - apply (lookup_sprops ps1 key He1 Hs1) in E1 as (n & p & Hin & Hsrc & ->).
+    destruct (lookup key (s_props true G1 ps1)) as [S1|] eqn:E1.
+    - apply (lookup_sprops G1 ps1 key He1 Hs1) in E1 as (n & p & Hin & Hsrc & ->).
       destruct (dict_fwd _ _ _ Hd n p Hin) as (q & Hq & HR).
       unfold prop_rel in HR. apply andb_true_iff in HR as [HR Hsq]. apply andb_true_iff in HR as [Heq _]. apply str_eqb_eq in Hsq.
-      assert (E2 : lookup key (s_props true Gs ps2) = Some (Gs (p_elem q))).
-      { apply (lookup_sprops ps2 key He2 Hs2). exists n, q. repeat split; auto. congruence. }
+      assert (E2 : lookup key (s_props true G2 ps2) = Some (G2 (p_elem q))).
+      { apply (lookup_sprops G2 ps2 key He2 Hs2). exists n, q. repeat split; auto. congruence. }
       rewrite E2. apply IH; [| |exact Heq].
       + apply ks_props. unfold ps1 in Hin. destruct (k_properties k1); [|contradiction]. apply in_map_iff. exists (n, p). auto.
       + apply ks_props. unfold ps2 in Hq. destruct (k_properties k2); [|contradiction]. apply in_map_iff. exists (n, q). auto.
-    - destruct (lookup key (s_props true Gs ps2)) as [S2|] eqn:E2; [|exact I].
-      apply (lookup_sprops ps2 key He2 Hs2) in E2 as (n & q & Hin & Hsrc & ->).
+    - destruct (lookup key (s_props true G2 ps2)) as [S2|] eqn:E2; [|exact I].
+      apply (lookup_sprops G2 ps2 key He2 Hs2) in E2 as (n & q & Hin & Hsrc & ->).
       destruct (dict_back _ _ _ Hn1 Hn2 Hl Hd n q Hin) as (p & Hp & HR).
       unfold prop_rel in HR. apply andb_true_iff in HR as [HR Hsq]. apply str_eqb_eq in Hsq.
-      assert (E1' : lookup key (s_props true Gs ps1) = Some (Gs (p_elem p))).
-      { apply (lookup_sprops ps1 key He1 Hs1). exists n, p. repeat split; auto. congruence. }
+      assert (E1' : lookup key (s_props true G1 ps1) = Some (G1 (p_elem p))).
+      { apply (lookup_sprops G1 ps1 key He1 Hs1). exists n, p. repeat split; auto. congruence. }
       congruence.
   Qed.
 
@@ -226,7 +226,7 @@ Section EKg.
     - repeat split; constructor.
   Qed.
 
-  Lemma pat_as k tl (Htl : forall key, In key (keys tl) -> key = s_ "type" \/ key = s_ "title") key :
+  Lemma pat_as (Gs : elem -> json) k tl (Htl : forall key, In key (keys tl) -> key = s_ "type" \/ key = s_ "title") key :
     pat_Ss O (ser_kwds true true Gs k ++ tl) key =
     map (fun ne : str * elem => Gs (snd ne))
         (filter (fun ne => re_search O (fst ne) key) (match k_patternProperties k with Some l => l | None => [] end)).
@@ -239,7 +239,7 @@ Section EKg.
     forallb (fun S0 => F S0 x) (pat_Ss O kvs1 key) = forallb (fun S0 => F S0 x) (pat_Ss O kvs2 key) /\
     (pat_Ss O kvs1 key = [] <-> pat_Ss O kvs2 key = []).
   Proof.
-    intros Hx. unfold kvs1, kvs2. rewrite (pat_as k1 _ Ht1 key), (pat_as k2 _ Ht2 key). fold pl1. fold pl2.
+    intros Hx. unfold kvs1, kvs2. rewrite (pat_as G1 k1 _ Ht1 key), (pat_as G2 k2 _ Ht2 key). fold pl1. fold pl2.
     destruct pats_dict as (Hl & Hd & Hn1 & Hn2).
     assert (A1 : forall n e, In (n, e) pl1 -> In e (ksub k1)).
     { intros n e H. apply ks_pats. unfold pl1 in H. destruct (k_patternProperties k1); [|contradiction]. apply in_map_iff. exists (n, e). auto. }
@@ -269,7 +269,7 @@ Section EKg.
 
   Lemma L_addp : orel O w (lookup (s_ "additionalProperties") kvs1) (lookup (s_ "additionalProperties") kvs2).
   Proof.
-    unfold kvs1, kvs2. rewrite (lk_addp Gs k1 _ Ht1), (lk_addp Gs k2 _ Ht2).
+    unfold kvs1, kvs2. rewrite (lk_addp G1 k1 _ Ht1), (lk_addp G2 k2 _ Ht2).
     destruct HEf as (_ & _ & _ & _ & _ & _ & H & _). apply L_addl; [exact H|apply ks_addp|apply ks_addp].
   Qed.
 
@@ -287,9 +287,9 @@ Section EKg.
   Qed.
 
   (* ---- dependencies ---- *)
-  Definition dep_json (d : dep_t elem) : json :=
+  Definition dep_json (Gs : elem -> json) (d : dep_t elem) : json :=
     match d with DepNames ns => JArr (map JStr ns) | DepElem e => Gs e end.
-  Lemma s_deps_map l : s_deps Gs l = map (fun nd : str * dep_t elem => (fst nd, dep_json (snd nd))) l.
+  Lemma s_deps_map (Gs : elem -> json) l : s_deps Gs l = map (fun nd : str * dep_t elem => (fst nd, dep_json Gs (snd nd))) l.
   Proof. induction l as [|[n [ns|e]] r IHl]; simpl; congruence. Qed.
 
   Definition dep_body (v : json) (m : list (str * json)) (kd : str * json) : bool :=
@@ -330,7 +330,7 @@ Section EKg.
   Qed.
 
   Lemma dep_body_rel v m n d1 d2 : jwf v -> In (n, d1) dl1 -> In (n, d2) dl2 -> dep_rel elem_eq d1 d2 = true ->
-    dep_body v m (n, dep_json d1) = dep_body v m (n, dep_json d2).
+    dep_body v m (n, dep_json G1 d1) = dep_body v m (n, dep_json G2 d2).
   Proof.
     intros Hv H1 H2 HR. unfold dep_body. cbn [fst snd]. destruct (has_key n m); [|reflexivity].
     destruct d1 as [ns1|x], d2 as [ns2|y]; simpl in HR; try discriminate; cbn [dep_json].
@@ -339,9 +339,9 @@ Section EKg.
       { apply ks_deps. unfold dl1 in H1. destruct (k_dependencies k1); [|contradiction]. apply in_flat_map. exists (n, DepElem x). split; [auto|now left]. }
       assert (Hy : In y (ksub k2)).
       { apply ks_deps. unfold dl2 in H2. destruct (k_dependencies k2); [|contradiction]. apply in_flat_map. exists (n, DepElem y). split; [auto|now left]. }
-      pose proof (sub_nonarr k1 x N1 Hx) as A1. pose proof (sub_nonarr k2 y N2 Hy) as A2.
+      pose proof (sub_nonarr G1 k1 x N1 Hx) as A1. pose proof (sub_nonarr G2 k2 y N2 Hy) as A2.
       pose proof (IH x y Hx Hy HR v Hv) as Hf.
-      destruct (Gs x), (Gs y); try contradiction; exact Hf.
+      destruct (G1 x), (G2 y); try contradiction; exact Hf.
   Qed.
 
   Lemma L_deps v (m : list (str * json)) : jwf v ->
@@ -374,11 +374,11 @@ Section EKg.
                          end) deps
                     | _ => true end) (s_ "dependencies") kvs2 true.
   Proof.
-    intros Hv. rewrite !wkey_lookup. unfold kvs1, kvs2. rewrite (lk_deps Gs k1 _ Ht1), (lk_deps Gs k2 _ Ht2).
+    intros Hv. rewrite !wkey_lookup. unfold kvs1, kvs2. rewrite (lk_deps G1 k1 _ Ht1), (lk_deps G2 k2 _ Ht2).
     destruct deps_dict as (Hl & Hd & Hn1 & Hn2 & Hnone).
     destruct (k_dependencies k1) as [l1|] eqn:E1, (k_dependencies k2) as [l2|] eqn:E2; cbn [option_map];
       try reflexivity; try (exfalso; destruct Hnone as [A B]; (discriminate (A eq_refl) || discriminate (B eq_refl))).
-    rewrite !deps_go_forallb, !s_deps_map.
+    rewrite !deps_go_forallb, (s_deps_map G1), (s_deps_map G2).
     assert (D1' : dl1 = l1) by (unfold dl1; now rewrite E1). assert (D2' : dl2 = l2) by (unfold dl2; now rewrite E2).
     rewrite D1', D2' in *.
     apply eq_true_iff_eq. rewrite !forallb_forall. split; intros H kd Hin; apply in_map_iff in Hin as ([n d] & <- & Hin); cbn [fst snd].
@@ -403,20 +403,20 @@ Section EKg.
     forall v, jwf v -> F (JObj kvs1) v = F (JObj kvs2) v.
   Proof.
     intros Hm v Hv. cbn [v6].
-    unfold kvs1 at 5, kvs2 at 5. rewrite (comp_absent O w Gs k1 tail1 Ht1 v), (comp_absent O w Gs k2 tail2 Ht2 v).
+    unfold kvs1 at 5, kvs2 at 5. rewrite (comp_absent O w G1 k1 tail1 Ht1 v), (comp_absent O w G2 k2 tail2 Ht2 v).
     assert (Ety : cl_type kvs1 v = cl_type kvs2 v).
-    { unfold cl_type, kvs1, kvs2. now rewrite (type_lookup Gs k1 tail1), (type_lookup Gs k2 tail2), Etype. }
+    { unfold cl_type, kvs1, kvs2. now rewrite (type_lookup G1 k1 tail1), (type_lookup G2 k2 tail2), Etype. }
     rewrite Ety.
-    pose proof (cl_scalar_ser O Gs k1 tail1 v Ht1) as Es1. pose proof (cl_scalar_ser O Gs k2 tail2 v Ht2) as Es2.
+    pose proof (cl_scalar_ser O G1 k1 tail1 v Ht1) as Es1. pose proof (cl_scalar_ser O G2 k2 tail2 v Ht2) as Es2.
     fold kvs1 in Es1. fold kvs2 in Es2. rewrite Es1, Es2.
     rewrite (cls_cong O k1 k2 v Hv W1 W2 HE Hm).
-    rewrite (cl_items_cong O w kvs1 kvs2 L_items) ; [|unfold kvs1, kvs2; rewrite (lk_addi Gs k1 _ Ht1), (lk_addi Gs k2 _ Ht2);
+    rewrite (cl_items_cong O w kvs1 kvs2 L_items) ; [|unfold kvs1, kvs2; rewrite (lk_addi G1 k1 _ Ht1), (lk_addi G2 k2 _ Ht2);
         destruct HEf as (_ & H & _); apply L_addl; [exact H|apply ks_addi|apply ks_addi]
-      |unfold kvs1, kvs2; rewrite (lk_contains Gs k1 _ Ht1), (lk_contains Gs k2 _ Ht2);
+      |unfold kvs1, kvs2; rewrite (lk_contains G1 k1 _ Ht1), (lk_contains G2 k2 _ Ht2);
         destruct HEf as (_ & _ & H & _); apply L_opt; [exact H|apply ks_contains|apply ks_contains]
       |exact Hv].
     rewrite (cl_object_cong O w kvs1 kvs2 L_req L_mem); [reflexivity|intros; now apply L_deps| |exact Hv].
-    unfold kvs1, kvs2. rewrite (lk_pnames Gs k1 _ Ht1), (lk_pnames Gs k2 _ Ht2).
+    unfold kvs1, kvs2. rewrite (lk_pnames G1 k1 _ Ht1), (lk_pnames G2 k2 _ Ht2).
     destruct HEf as (_ & _ & _ & _ & _ & _ & _ & H & _). apply L_opt; [exact H|apply ks_pnames|apply ks_pnames].
   Qed.
 End EKg.
@@ -541,7 +541,7 @@ Section MainC.
       assert (G2 : local_g (Qek k1) c1 k2).
       { apply (local_g_mono (Qek k2)); [|exact (local_dsl_g c1 k2 Lb)].
         intros np H Hr. unfold Qek in *. fold (E_ k1). fold (E_ k2) in H. rewrite EE. exact (H Hr). }
-      apply (ek_cong O w ser_inl (Qek k1) c1 k1 k2 (json_type c1) (json_type c1) (Htail_c c1) (Htail_c c1) eq_refl HE Wa Wb
+      apply (ek_cong O w ser_inl ser_inl (Qek k1) c1 k1 k2 (json_type c1) (json_type c1) (Htail_c c1) (Htail_c c1) eq_refl HE Wa Wb
                      (local_dsl_g c1 k1 La) G2 (Hsh _) (Hsh _)).
       + intros x y Hx Hy Hxy v' Hv'. rewrite Forall_forall in IH, Ca, Cb.
         exact (IH x Hx (Ca x Hx) y (Cb y Hy) Hxy v' Hv').
@@ -586,12 +586,12 @@ Section MainC.
       { apply Forall_forall. intros x Hx. rewrite Forall_forall in Ca. split; [exact (ser_inl_meaning O x (proj1 (Ca x Hx)))|apply ser_inl_shape]. }
       assert (S2 : Forall (fun x => sim O w x (ser_inl x) /\ gsh ser_inl x) (ksub k2)).
       { apply Forall_forall. intros x Hx. rewrite Forall_forall in Cb. split; [exact (ser_inl_meaning O x (proj1 (Cb x Hx)))|apply ser_inl_shape]. }
-      apply (ek_cong O w ser_inl (fun _ => True) CElement k1 k2 _ _ (Ht n1) (Ht n2) eq_refl HE Wa Wb G1 G2 (Hsh _) (Hsh _)).
+      apply (ek_cong O w ser_inl ser_inl (fun _ => True) CElement k1 k2 _ _ (Ht n1) (Ht n2) eq_refl HE Wa Wb G1 G2 (Hsh _) (Hsh _)).
       + intros x y Hx Hy Hxy v' Hv'. rewrite Forall_forall in IH, Ca, Cb.
         exact (IH x Hx (Ca x Hx) y (Cb y Hy) Hxy v' Hv').
       + intros m.
-        pose proof (req_cls O w Hw_c ser_inl eq_refl ser_inl_default n1 k1 G1 X1 S1 m) as R1.
-        pose proof (req_cls O w Hw_c ser_inl eq_refl ser_inl_default n2 k2 G2 X2 S2 m) as R2.
+        pose proof (req_cls O w Hw_c ser_inl eq_refl n1 k1 (fun x _ => ser_inl_default x) G1 X1 S1 m) as R1.
+        pose proof (req_cls O w Hw_c ser_inl eq_refl n2 k2 (fun x _ => ser_inl_default x) G2 X2 S2 m) as R2.
         unfold req_specw in R1, R2. rewrite <- R1, <- R2.
         unfold required_names. fold (E_ k1). fold (E_ k2). fold (PR_ k1). fold (PR_ k2).
         rewrite (EE_eq k1 k2 HE).
